@@ -71,8 +71,11 @@ def gen_dict(rng, depth=0):
             d_k = {"d": gen_dict(rng, depth + 1)}
         elif r < 0.85:
             d_k = {"l": [rng.choice([1, "s", None, 2.5]), {"v": gen_struct(rng, kinds=("obs", "corr"))}]}
+        elif r < 0.93:
+            # lists inside a list: independent items (observables of different ensembles, mixed with numbers, an empty list)
+            d_k = {"ll": [{"v": gen_struct(rng, kinds=("obs",))}, {"v": gen_struct(rng, kinds=("obs",))}], "empty": rng.random() < 0.5, "scalar": rng.choice([1, "s", None, 2.5])}
         else:
-            d_k = {"p": rng.choice([1, "text", None, 2.5, True, [1, 2]])}
+            d_k = {"p": rng.choice([1, "text", None, 2.5, True, [1, 2], [], {}, [[], {}], [1, [2, [3, []]]]])}
         d[repr(k)] = {"key": k, "val": d_k}
     return d
 
@@ -171,6 +174,9 @@ def build_dict(d):
             out[key] = build_dict(v["d"])
         elif "l" in v:
             out[key] = [v["l"][0], {"inner": build(v["l"][1]["v"])}]
+        elif "ll" in v:
+            a, b = build(v["ll"][0]["v"]), build(v["ll"][1]["v"])
+            out[key] = [v["scalar"], [a, b]] + ([[]] if v["empty"] else []) + [[v["scalar"], b]]
         else:
             out[key] = v["p"]
     return out
